@@ -8,18 +8,23 @@ def optStr : Option String → String
   | some s => s
   | none => ""
 
-/-- the sort key of `impl Ord for TxnHeader`: (instant, code or "", description or "", uuid or "") -/
-def hdrKey (h : Header) : Int × String × String × String :=
-  (h.ts.ns, optStr h.code, optStr h.desc, optStr h.uuid)
+/-- the sort key of `impl Ord for TxnHeader`: instant, code or "", description or "", uuid text or "",
+    then the tie-breaks "code present", "description present" (absent sorts before empty) -/
+def hdrKey (h : Header) : Int × String × String × String × Bool × Bool :=
+  (h.ts.ns, optStr h.code, optStr h.desc, optStr h.uuid, h.code.isSome, h.desc.isSome)
 
-/-- `a ≤ b` in the header order -/
+def boolLt (a b : Bool) : Bool := !a && b
+
+/-- `a ≤ b` in the header order (lexicographic on the key) -/
 def hdrLe (a b : Header) : Bool :=
   let ka := hdrKey a
   let kb := hdrKey b
   if ka.1 < kb.1 then true else if kb.1 < ka.1 then false
   else if ka.2.1 < kb.2.1 then true else if kb.2.1 < ka.2.1 then false
   else if ka.2.2.1 < kb.2.2.1 then true else if kb.2.2.1 < ka.2.2.1 then false
-  else !(kb.2.2.2 < ka.2.2.2)
+  else if ka.2.2.2.1 < kb.2.2.2.1 then true else if kb.2.2.2.1 < ka.2.2.2.1 then false
+  else if boolLt ka.2.2.2.2.1 kb.2.2.2.2.1 then true else if boolLt kb.2.2.2.2.1 ka.2.2.2.2.1 then false
+  else !(boolLt kb.2.2.2.2.2 ka.2.2.2.2.2)
 
 def txnLe (a b : Txn) : Bool := hdrLe a.header b.header
 
